@@ -524,24 +524,26 @@ impl<M: Manager, W: From<Object<M>>> Pool<M, W> {
                     slots.debt += 1;
                 }
             }
-            // The permit of an idle object can be unavailable for a moment
-            // (a returning object is pushed before its permit is added, and
-            // a permit may already be assigned to a waiter which has not run
-            // yet). Surplus idle objects are released regardless.
-            while slots.size > slots.max_size {
-                if let Some(obj) = slots.vec.pop_front() {
-                    slots.size -= 1;
-                    released.push(obj);
-                } else {
-                    break;
-                }
-            }
             // Create a new VecDeque with a smaller capacity
             let mut vec = VecDeque::with_capacity(max_size);
             for obj in slots.vec.drain(..) {
                 vec.push_back(obj);
             }
             slots.vec = vec;
+        }
+        // The permit of an idle object can be unavailable for a moment
+        // (a returning object is pushed before its permit is added, and
+        // a permit may already be assigned to a waiter which has not run
+        // yet), and objects whose creation was under way during an earlier
+        // shrink may have pushed the size over the limit since. Surplus idle
+        // objects are released regardless.
+        while slots.size > slots.max_size {
+            if let Some(obj) = slots.vec.pop_front() {
+                slots.size -= 1;
+                released.push(obj);
+            } else {
+                break;
+            }
         }
         // grow pool
         if max_size > old_max_size {
